@@ -385,3 +385,26 @@ def run(ctx, R, tier):
     R.check(ok, "C20-R3", "get_nameserver|cached-proxy-validated", "the cached name server proxy is returned only after a liveness call; a lost connection drops the cache and reconnects", gn.loc(), why +
             ": after the name server connection was lost between two requests, the next authorised request is not forwarded at all (500 from the lookup)")
 
+    # the gateway hands the reply's JSON bytes and flags through unchanged: it asks the proxy for the raw wire message
+    inv = ctx.fn("Pyro5.client.Proxy._pyroInvoke")
+    icfg = ctx.cfg(inv)
+    rc = ctx.calls_to(inv, "Pyro5.protocol.recv_stub")
+    mv = enclosing_stmt(rc[0]).targets[0].id if rc and isinstance(enclosing_stmt(rc[0]), ast.Assign) else None
+
+    def raw(want):
+        def pred(atom, pol):
+            return pol is want and isinstance(atom, ast.Attribute) and atom.attr == "_pyroRawWireResponse"
+        return pred
+    raw_rets = [n for n in icfg.nodes if n.kind == "stmt" and isinstance(n.ast, ast.Return) and isinstance(n.ast.value, ast.Name) and n.ast.value.id == mv
+                and icfg.guarded(n, lambda e: edge_has_fact(e, raw(True)))]
+    decs = [n for c, _ in ctx.cg.calls_of(inv) if isinstance(c.func, ast.Attribute) and c.func.attr == "loads" for n in ctx.node_of(inv, c)]
+    ok = bool(mv) and bool(raw_rets) and bool(decs) and all(icfg.guarded(n, lambda e: edge_has_fact(e, raw(False))) for n in decs)
+    sets = [st for st, t, k in stores_in(f.node) if k == "assign" and isinstance(t, ast.Attribute) and t.attr == "_pyroRawWireResponse"
+            and isinstance(st.value, ast.Constant) and st.value.value is True]
+    inv_nodes = [n for c in calls for n in ctx.node_of(f, c)]
+    ok_set = bool(sets) and all(any(cfg.dominates(x, n) for st in sets for x in cfg.nodes_for(st)) for n in inv_nodes)
+    R.check(ok and ok_set, "C20-R3", "raw-wire-response|requested-and-honoured", "the gateway sets _pyroRawWireResponse before invoking, and _pyroInvoke then returns the received message undecoded",
+            inv.loc(raw_rets[0].ast) if raw_rets else inv.loc(),
+            ("the gateway no longer asks for the raw reply before the invocation" if not ok_set else
+             "_pyroInvoke no longer returns the received message as is when _pyroRawWireResponse is set: the gateway reads .flags/.data of whatever comes back"))
+
